@@ -284,7 +284,7 @@ func init() {
 	Runners["C06"] = func(e *Engine) {
 		n := 25
 		if e.Opts.Thorough() {
-			n = 400
+			n = 100 // bounded by the Lean driver's throughput and by the memory of the un-batched case list
 		}
 		e.RunC06(n)
 		e.Res.Rule = "per generated struct type and random value: every proper prefix of the encoding (sampled at field boundaries±1 and 60 random cuts when longer than 150 bytes), " +
